@@ -149,7 +149,9 @@ impl<'a> StateMachine<'a> {
             painter: Painter::new(writer, config),
             config,
             blame_key_colors: HashMap::new(),
-            minus_line_counter: AmbiguousDiffMinusCounter::not_needed(),
+            // (until the input is known to come from git: hunks may arrive without any header,
+            // and a removed line `-- x` in them looks like a `--- x` header)
+            minus_line_counter: AmbiguousDiffMinusCounter::prepare_to_count(),
             in_binary_patch: BinaryPatch::No,
             in_submodule_section: false,
         }
@@ -169,8 +171,8 @@ impl<'a> StateMachine<'a> {
                 // Handle plain `diff -u file1 file2` / `diff -ru dir1 dir2` output, where a
                 // removed line `-- x` looks like a `--- x` header. Done here to avoid having
                 // to introduce and handle a Source::DiffUnifiedAmbiguous variant everywhere.
-                if self.source == Source::DiffUnified {
-                    self.minus_line_counter = AmbiguousDiffMinusCounter::prepare_to_count();
+                if self.source == Source::GitDiff {
+                    self.minus_line_counter = AmbiguousDiffMinusCounter::not_needed();
                 }
             }
 
